@@ -124,7 +124,7 @@ public:
       const bool  thorough = (tier == "thorough");
       Json  plan = Json::object();
       plan[ "prop"] = "C04";
-      Json  recipe = recipes::genRecipe( cfg, true, true, true, true);
+      Json  recipe = recipes::genRecipe( cfg, true, true, true, true, true);
       plan[ "recipe"] = recipe;
       Json  flags = Json::array();
       for (auto const& f : kFlags)
